@@ -483,6 +483,7 @@ class FnEdit:
         self.afterloops = {}
         self.attrs = []
         self.desugar = False
+        self.selfmut = None
         self.desugar_vars = []
         self.loadstore = []
 
@@ -662,6 +663,8 @@ class Generator:
                         e.external = True
                 elif c == 'shape':
                     e.shape = True
+                elif c == 'selfmut':
+                    e.selfmut = tok[1]
                 elif c == 'desugar':
                     e.desugar = True
                     e.desugar_vars = tok[1:]
@@ -712,8 +715,24 @@ class Generator:
             raise Inconclusive('item %s %s in %s: found %d' % (kind, name, frel, len(its)))
         it = its[0]
         text = it.text
-        text = self._apply_rules(text, frel, it.first_line)
         kv = self._kv(opts)
+        # derive attributes written on the lines above the item belong to it (Copy/Clone matter for ownership checking)
+        if 'noderive' not in kv:
+            ls = f.src.rfind('\n', 0, it.start)
+            prev_end = ls
+            while prev_end > 0:
+                pls = f.src.rfind('\n', 0, prev_end) + 1
+                line = f.src[pls:prev_end].strip()
+                if line.startswith('#[derive(') and line.endswith(')]'):
+                    keep = [d.strip() for d in line[len('#[derive('):-2].split(',') if d.strip() in ('Copy', 'Clone')]
+                    if keep:
+                        text = '#[derive(%s)] ' % ', '.join(keep) + text
+                    prev_end = pls - 1
+                elif line.startswith('#[') or line.startswith('///') or line.startswith('//'):
+                    prev_end = pls - 1
+                else:
+                    break
+        text = self._apply_rules(text, frel, it.first_line)
         if 'noderive' in kv:
             text, k = re.subn(r'(?m)^[ \t]*#\[derive\([^\]]*\)\][ \t]*$', '', text)
             self._count('R5-derive', k)
@@ -831,6 +850,26 @@ class Generator:
 
     def _emit_fn(self, text, frel, line0, path, kv, edit, trel, tline):
         text = self._apply_rules(text, frel, line0)
+        if edit.selfmut:
+            # R15: `mut self` receiver (unsupported by Verus) -> `self` moved into a mutable local of the given name; every
+            # `self` of the body is renamed (alpha-renaming; `Self` untouched)
+            m0 = rsscan.mask(text)
+            fk = re.search(r'\bfn\b', m0).start()
+            bo0 = rsscan.find_body_open(m0, fk)
+            sig0, body0 = text[:bo0], text[bo0:]
+            sig0, k = re.subn(r'\(\s*mut\s+self\b', '(self', sig0)
+            if k != 1:
+                raise Inconclusive('%s: selfmut requested but the receiver is not `mut self`' % path)
+            mb = rsscan.mask(body0)
+            out, last = [], 0
+            for mm in re.finditer(r'\bself\b', mb):
+                out.append(body0[last:mm.start()]); out.append(edit.selfmut); last = mm.end()
+            out.append(body0[last:])
+            body0 = ''.join(out)
+            body0 = '{ let mut %s = self;' % edit.selfmut + body0[1:]
+            text = sig0 + body0
+            self._count('R15')
+            self.log.append({'rule': 'R15', 'fn': path})
         for rg, rp in edit.subs:
             def _padded(mm, rp=rp):
                 newt = mm.expand(rp)
